@@ -553,8 +553,12 @@ def rolling_sum(xx, window_size, nodata, yy):
             yy[ii] = nodata
             continue
 
+        n_valid = 0
         for jj in range(ii - window_size + 1, ii + 1):
             if xx[jj] == nodata:
-                yy[ii] = nodata
                 continue
             yy[ii] += xx[jj]
+            n_valid += 1
+
+        if n_valid == 0:
+            yy[ii] = nodata
